@@ -36,3 +36,26 @@ Proof.
   intro t. apply (H (size t)). apply le_n.
 Qed.
 Print Assumptions C03_render_residue_count.
+
+From GV Require Import Model.Edge Model.Walker Proofs.WalkerThm.
+
+(* The tree walker (Model/Walker.v, tied to walker.py by exact comparison of node ids, names and edge order on every
+   sampled input) on EVERY parse tree of rule 'branch', whatever its depth and whichever of the six productions it
+   uses: exactly one node is created per written residue, nodes that exist are left alone, and exactly one edge is
+   created per new node. *)
+Theorem C03_walk_one_node_per_residue :
+  forall t, shaped t -> forall f p g id g',
+    walk f t p g = Some (id, g') -> p < length (g_nodes g) ->
+    extends g g' (length (residues t)) /\ id < length (g_nodes g') /\
+    length (g_edges g') = length (g_edges g) + length (residues t).
+Proof. exact walk_inv. Qed.
+Print Assumptions C03_walk_one_node_per_residue.
+
+(* for the whole brace-free glycan: node 0 is the last-written residue, there is one node per written residue and
+   one edge fewer *)
+Theorem C03_root_and_counts :
+  forall f b d g, shaped b -> parse_begin f [b; PRes d] = Some g ->
+    length (g_nodes g) = S (length (residues b)) /\ nth_error (g_nodes g) 0 = Some d /\
+    length (g_edges g) = length (residues b).
+Proof. exact parse_begin_counts. Qed.
+Print Assumptions C03_root_and_counts.
